@@ -16,7 +16,7 @@ CONTEXTS = ["none", "try_body", "tryfinally_body", "finally_body", "except_body"
             "in_with", "in_async_with", "else_of_try", "for_else"]
 TAILS = ["plain", "try_except_last", "try_finally_last", "if_return_const", "if_return_value", "if_break",
          "if_continue", "raise", "nested_with", "swallow", "empty", "if_else_return", "return_in_try_finally",
-         "nested_async_with", "try_except_else_last", "if_return_none"]
+         "nested_async_with", "try_except_else_last", "if_return_none", "oneline_pass", "try_finally_del", "while_last"]
 CONTS = ["nothing", "stmt", "second_with"]
 
 
@@ -108,6 +108,12 @@ def build(kind: str, ctx: str, is_async: bool, nitems: int, tail: str, cont: str
         body = S() + g.WITH(True, 1, S())
     elif tail == "empty":
         body = ["pass"]
+    elif tail == "oneline_pass":
+        body = ["pass"]  # rendered on the same line as the with header (no NOP: the block protects one instruction)
+    elif tail == "try_finally_del":
+        body = ["y = 0", "try:"] + ind(S()) + ["finally:"] + ind(["del y"])
+    elif tail == "while_last":
+        body = S() + ["while E.n(3):"] + ind(S())
     elif tail == "if_else_return":
         body = ["if E.c(0):"] + ind(S() + ["return 1"]) + ["else:"] + ind(S())
     elif tail == "return_in_try_finally":
@@ -115,6 +121,8 @@ def build(kind: str, ctx: str, is_async: bool, nitems: int, tail: str, cont: str
     else:
         raise AssertionError(tail)
     W = g.WITH(is_async, nitems, body, swallow=swallow)
+    if tail == "oneline_pass":
+        W = [W[0] + " pass"]
     if cont == "stmt":
         W = W + S()
     elif cont == "second_with":
